@@ -38,7 +38,7 @@ pub struct TraceView {
     pub instr_ip: u64,
     pub target: u64,
     pub variant: u8,
-    pub level: i16,
+    pub level: i64,
     pub count: u64,
 }
 
@@ -92,7 +92,7 @@ impl crate::axecutor::Axecutor {
                     TraceVariant::Return => 1,
                     TraceVariant::Jump => 2,
                 },
-                level: e.level,
+                level: e.level.into(),
                 count: e.count,
             })
             .collect()
